@@ -292,6 +292,17 @@ func Gen(o GenOpts) *rapid.Generator[Script] {
 			mode = pick(t, "smode", "single", "single", "alternate", "mixed", "withhold")
 		}
 		single := curP("singleP")
+		if s.Ver == 1 && !s.Simple && rapid.Bool().Draw(t, "zerosingle") {
+			// v1 accepts an H that leaves a priority without a share (or without an entry at all): make
+			// that one the busy priority, with more data than there are handlers
+			m := map[uint]uint{}
+			baseDivider(s.Div)(ps, s.H, m)
+			for _, p := range ps {
+				if m[p] == 0 {
+					mode, single = "single", p
+				}
+			}
+		}
 		for i := 0; i < nops; i++ {
 			if i == stopAt {
 				s.Ops = append(s.Ops, Op{K: pick(t, "stopkind", "S", "S", "K"), N: pick(t, "stopcalls", 1, 1, 2)})
@@ -336,7 +347,7 @@ func Gen(o GenOpts) *rapid.Generator[Script] {
 			default:
 				switch {
 				case o.AddRemove && s.Ver == 1 && !s.Simple && rapid.IntRange(0, 4).Draw(t, "axg") == 0:
-					s.Ops = append(s.Ops, Op{K: "G"}) // GracefulStop early or in the middle, also in add/remove scripts
+					s.Ops = append(s.Ops, Op{K: "G", N: pick(t, "gcalls", 1, 1, 2)}) // GracefulStop early or in the middle, also in add/remove scripts
 				case o.AddRemove && s.Ver == 1 && !s.Simple && rapid.IntRange(0, 3).Draw(t, "xa") == 0:
 					// the same priority removed and added again at once (whatever of it is in flight stays in flight)
 					p := curP("xap")
@@ -348,7 +359,7 @@ func Gen(o GenOpts) *rapid.Generator[Script] {
 						s.Ops = append(s.Ops, Op{K: "X", P: anyP("xp")})
 					}
 				case s.Ver == 1 && rapid.IntRange(0, 2).Draw(t, "g") == 0:
-					s.Ops = append(s.Ops, Op{K: "G"})
+					s.Ops = append(s.Ops, Op{K: "G", N: pick(t, "gcalls2", 1, 1, 2)})
 				default:
 					s.Ops = append(s.Ops, Op{K: "D"})
 				}
@@ -367,6 +378,7 @@ func Gen(o GenOpts) *rapid.Generator[Script] {
 				Delta: uint(rapid.IntRange(1, 3).Draw(t, "fdelta")),
 			}
 			s.Fault.Outside = rapid.IntRange(0, 3).Draw(t, "foutside") == 0
+			s.Fault.AfterGStop = s.Ver == 1 && rapid.IntRange(0, 4).Draw(t, "fgstop") == 0
 			if rapid.IntRange(0, 7).Draw(t, "fnone") == 0 {
 				s.Fault = nil
 			}
